@@ -57,7 +57,24 @@ class Fabric:
                 status, ctype, rbody, close, *more = self.respond(req)
                 if status is None:       # drop the connection (reset-like)
                     return
-                declared = more[0] if more else len(rbody)     # a handler may announce another length than it sends
+                declared = more[0] if more and more[0] is not None else len(rbody)     # a handler may announce another length than it sends
+                chunks = more[1] if len(more) > 1 else None
+                if chunks:
+                    # the same body with Transfer-Encoding: chunked, cut at the given sizes (the rest in one last chunk)
+                    out = b"HTTP/1.1 %d X\r\ncontent-type: %s\r\ntransfer-encoding: chunked\r\n\r\n" % (status, ctype.encode())
+                    pos = 0
+                    for n in list(chunks) + [len(rbody)]:
+                        piece = rbody[pos:pos + n]
+                        pos += len(piece)
+                        if piece:
+                            out += b"%x\r\n" % len(piece) + piece + b"\r\n"
+                    out += b"0\r\n\r\n"
+                    c.sendall(out[:len(out) // 2])
+                    time.sleep(0.01)              # two TCP segments, so that the body arrives in more than one frame
+                    c.sendall(out[len(out) // 2:])
+                    if close:
+                        return
+                    continue
                 out = b"HTTP/1.1 %d X\r\ncontent-type: %s\r\ncontent-length: %d\r\n\r\n" % (status, ctype.encode(), declared) + rbody
                 c.sendall(out)
                 if close:
